@@ -381,6 +381,10 @@ func (d *Data) Set(id string, v interface{}) (ok bool, err error) {
 			return false, fmt.Errorf("expected %T, got %T", vv, v)
 		}
 	}
+	if d.values == nil {
+		// The zero value is an empty form, like for every other method.
+		d.values = make(map[string]interface{})
+	}
 	d.values[id] = v
 	return ok, err
 }
